@@ -57,6 +57,12 @@ def make_classes(variant, log, refs, hooks=()):
             for k, v in kw.items():
                 setattr(self, k, v)
 
+        def __getattr__(self, k):
+            # the user's own fallback for unknown attributes (textX never replaces __getattr__)
+            if k.startswith('dflt_'):
+                return k
+            raise AttributeError(k)
+
     if variant == 'slots':
         class Leaf:
             __slots__ = ('parent', 'name', 'to', 'more', '__weakref__')
